@@ -33,6 +33,8 @@ type Program struct {
 	MirrorDiff []string
 	fnByKey   map[string]*ssa.Function
 	Axioms    []axiomDef
+	gfCache   map[*ssa.Global]*ssa.Function
+	gfDone    map[*ssa.Global]bool
 }
 
 type axiomDef struct {
@@ -359,4 +361,47 @@ func (r *typeResolver) resolveTypeExpr(e ast.Expr) (types.Type, error) {
 		return r.resolveTypeExpr(x.X)
 	}
 	return nil, fmt.Errorf("unsupported type expression")
+}
+
+// globalFuncInit: if the package-level variable g has function type, is assigned exactly once in the
+// whole repository, by its package initialiser, with a function (literal without captured variables),
+// return that function.
+func (p *Program) globalFuncInit(g *ssa.Global) *ssa.Function {
+	if p.gfCache == nil {
+		p.gfCache = map[*ssa.Global]*ssa.Function{}
+		p.gfDone = map[*ssa.Global]bool{}
+	}
+	if p.gfDone[g] {
+		return p.gfCache[g]
+	}
+	p.gfDone[g] = true
+	var found *ssa.Function
+	n := 0
+	for _, fn := range p.fnByKey {
+		for _, b := range fn.Blocks {
+			for _, ins := range b.Instrs {
+				st, ok := ins.(*ssa.Store)
+				if !ok || st.Addr != ssa.Value(g) {
+					continue
+				}
+				n++
+				if fn.Synthetic != "package initializer" {
+					return nil
+				}
+				switch v := st.Val.(type) {
+				case *ssa.Function:
+					found = v
+				case *ssa.MakeClosure:
+					if len(v.Bindings) == 0 {
+						found, _ = v.Fn.(*ssa.Function)
+					}
+				}
+			}
+		}
+	}
+	if n != 1 {
+		return nil
+	}
+	p.gfCache[g] = found
+	return found
 }
